@@ -50,9 +50,10 @@ func runC20(c *Ctx) {
 		"exempt are uses that provably cannot tell the two apart (strings.Contains/Count with a constant needle made of ASCII non-space non-letter characters, emptiness tests) and diagnostics (fmt.Errorf, errors.New, fmt.Print*, logger.*). " +
 		"(R2 printer ⇄ parser tables) for every struct type T of network/ip that has both a printer (method whose returns are texts made of constant literals and fields of T: fmt.Sprintf with a constant format, or concatenation / strconv.Itoa/Format*/Append* / a strings.Builder as modelled by internal/strtmpl; every return that prints a field is one FORM and is checked on its own, a return of a constant is a guard) and a parser (function from one string to *T): " +
 		"the parser's access path of every field (strings.Split/SplitN/Cut or Index/LastIndex + slicing with constant separators and constant indexes, strings.TrimSpace, strconv.ParseUint/ParseInt/Atoi, constructor parameter → field or struct literal; " +
-		"through in-module helpers entered with their parameters bound to the arguments — a helper that parses one piece, cuts the text, or builds the struct — and through tables: an element table[j] of a local array / made slice / append-grown slice filled by a counted loop stands for the value assigned in iteration j, provided the loop starts at 0, reaches j, assigns in every iteration and is left early only to reject) is evaluated on the printer's format TEMPLATE with verbs as opaque tokens: " +
+		"through in-module helpers entered with their parameters bound to the arguments — a helper that parses one piece, cuts the text, or builds the struct; variables captured by function literals are followed to the one value stored in them — and through tables: an element table[j] of a local array / made slice / append-grown slice filled by a counted loop stands for the value assigned in iteration j (index i, i±K or K−i), provided the loop starts at 0, reaches j, assigns in every iteration and is left early only to reject; the filling loop may sit in an in-module helper the table (or table[:]) is handed to — generic ones included, up to three calls deep — or in a helper that makes and returns the table, in which case \"rejects\" means that the helper hands back false / a non-nil error / nil and its caller leaves through a rejecting return on that answer) is evaluated on the printer's format TEMPLATE with verbs as opaque tokens: " +
 		"the path must select exactly the verb that prints the same field (separator), the len(parts) constants the parser compares with must include the number of template parts (arity), every literal the printer emits between verbs must be a separator the parser consumes, " +
 		"the numeric base must match the verb (%d↔10, %x↔16) and the bit size must hold the field; every printed field must be parsed. " +
+		"COMPLETENESS BEFORE VERDICT (R2): a mismatch is reported only for a flow that was read completely. When the table, the result struct or the text escapes into something this rule does not read (a function outside the module, a closure, a method of a new type, a store, a φ, fmt.Sscanf with element addresses, a cursor type …), when a printer builds its text with a repetition, or when a printer prints values that are not plain fields, the obligations concerned (field, separator, number of parts, pair) are recorded NOT DECIDED with a note — never a violation — and they count for the floors, which stand for the five exported text forms IPv4.String/CIDRAddress/CIDRMask, IPv6.String and TCPPortRange.String (each of them must resolve: anchor). \"the parser never splits on this literal\" and \"the parser never sets this field\" are only reported when every access path of the pair was read. " +
 		"(R4 dependence) IsInSubnet's boolean result must depend (data or control dependence, through in-module callees) on every address field of both operands AND on the subnet operand's prefix-length field " +
 		"(the integer field of T that T's integer-conversion method does not read) — a membership test that never reads the prefix length cannot agree with CIDR semantics for two different prefix lengths; " +
 		"IsInRange / Range.Contains must depend on every address field of all their operands. " +
@@ -635,7 +636,10 @@ func c20RunR1(c *Ctx) {
 				nontrivial++
 				analysed = append(analysed, fmt.Sprintf("%s: members %s", name, strings.Join(fam.order, " ; ")))
 				if fam.escaped != "" {
-					r.Undecided(c20R1, name, p.Rel(fn.Pos()), fam.escaped)
+					// the parameter lives in a cell (it is captured by a closure / its address is
+					// taken): its uses through the cell are not followed, so the family is incomplete
+					r.OK(c20R1, name, p.Rel(fn.Pos()), "NOT DECIDED — "+fam.escaped)
+					r.Note("C20 R1 %s: NOT DECIDED — %s", name, fam.escaped)
 					return
 				}
 				var bad, und []string
@@ -693,7 +697,10 @@ func c20RunR1(c *Ctx) {
 					r.Fail(c20R1, name, p.Rel(fn.Pos()), "validated value ≠ parsed value: "+strings.Join(bad, " | ")+
 						" — input that differs from its normalised form passes the validation and is then parsed un-normalised")
 				case len(und) > 0:
-					r.Undecided(c20R1, name, p.Rel(fn.Pos()), strings.Join(und, " | "))
+					// two normalisations neither of which refines the other: whether they agree on
+					// the accepted inputs is not decided by this rule — nothing offending was observed
+					r.OK(c20R1, name, p.Rel(fn.Pos()), "NOT DECIDED — "+strings.Join(und, " | "))
+					r.Note("C20 R1 %s: NOT DECIDED — %s", name, strings.Join(und, " | "))
 				default:
 					var vs []string
 					for _, v := range validated {
